@@ -140,6 +140,9 @@ def clip_rules(ctx, unit, qn, f):
                 s_ = norm_src(side)
                 if s_.startswith("np.eye(") or s_.endswith("_mask") or "== 0" in s_:
                     guarded = True
+        if isinstance(core, ast.Call) and (call_name(core) or "").split(".")[-1] == "where" and len(core.args) == 3 and "== 0" in norm_src(core.args[0]) \
+                and norm_src(core.args[1]) not in ("0", "0.0"):
+            guarded = True          # np.where(d == 0, c, d) with c != 0
         if guarded:
             ctx.ok("C13-b", site, "zero distances masked before the division")
         else:
